@@ -236,6 +236,24 @@ def build_alphabet() -> list[Sym]:
 
 
 ALPHABET = build_alphabet()
+
+# Interference: commands a SECOND session of the same user executes between two
+# commands of the connection under test.  They are not steps of the connection
+# model (its backend parameter simply answers differently afterwards); the
+# clauses "CLOSE always succeeds and deselects", "LOGOUT ends with BYE then OK",
+# "SELECT success/failure" must hold whatever the other session did.
+INTERFERE = {
+    'x_expunge_inbox': [b'SELECT INBOX', b'EXPUNGE'],
+    'x_expunge_sent': [b'SELECT Sent', b'EXPUNGE'],
+    'x_flag_deleted_inbox': [b'SELECT INBOX', b'STORE 1 +FLAGS (\\Deleted)'],
+    'x_flag_deleted_sent': [b'SELECT Sent', b'STORE 1:* +FLAGS (\\Deleted)'],
+    'x_wipe_inbox': [b'SELECT INBOX', b'STORE 1:* +FLAGS (\\Deleted)', b'EXPUNGE'],
+    'x_wipe_sent': [b'SELECT Sent', b'STORE 1:* +FLAGS (\\Deleted)', b'CLOSE'],
+    'x_append_inbox': [b'APPEND INBOX {%d+}\r\n%s' % (len(MSG), MSG)],
+    'x_delete_sent': [b'EXAMINE INBOX', b'DELETE Sent'],
+    'x_rename_sent': [b'EXAMINE INBOX', b'RENAME Sent Sent9'],
+    'x_create_delete': [b'CREATE Tmp', b'DELETE Tmp'],
+}
 BYKEY = {s.key: s for s in ALPHABET}
 IDX = {s.key: i for i, s in enumerate(ALPHABET)}
 
@@ -328,8 +346,10 @@ async def run_sequence(rec: Recorder, variant: dict, keys: list[str]) -> dict:
     conn = await env.connect(local=variant['local'])
     steps = []
 
+    main_state = None
+
     def view(out, used, cond, text):
-        snap = rec.snapshot()
+        snap = rec.snapshot(main_state)
         nbase = 2 + (1 if snap['starttls'] else 0)
         return {
             'out': out, 'used': used, 'cond': cond, 'text': text,
@@ -341,8 +361,24 @@ async def run_sequence(rec: Recorder, variant: dict, keys: list[str]) -> dict:
         }
     g = conn.greeting
     gcond = 'OK' if g.startswith((b'* OK', b'* PREAUTH')) else 'NOTAG'
+    main_state = rec.states[-1]
     greeting = view(g, 0, gcond, g)
+    other = None
     for i, key in enumerate(keys):
+        if key in INTERFERE:
+            # the other session; its backend calls are not the main connection's
+            if other is None:
+                other = await env.connect(local=True)
+                r = await other.send(b'o0 LOGIN testuser testpass\r\n')
+                assert b'o0 OK' in r, r
+            outs = []
+            for j, ln in enumerate(INTERFERE[key]):
+                outs.append(await other.send(b'o%d_%d ' % (i, j) + ln + b'\r\n'))
+            rec.log.take()
+            steps.append({'interfere': key, 'out': b''.join(outs), 'cond': 'X', 'text': b'',
+                          'closed': conn.closed, 'calls': [], 'snap': rec.snapshot(main_state),
+                          'bye': False, 'used': 0, 'exc': None, 'logincaps': 0, 'capsrem': 0})
+            continue
         sym = BYKEY[key]
         tag = b't%d' % i
         out, used = await run_exchange(conn, tag + b' ' + sym.line, sym.lines)
@@ -350,6 +386,8 @@ async def run_sequence(rec: Recorder, variant: dict, keys: list[str]) -> dict:
         steps.append(view(out, used, cond, text))
     if not conn.closed:
         await conn.send_eof()
+    if other is not None and not other.closed:
+        await other.send_eof()
     return {'greeting': greeting, 'steps': steps, 'idle_cap': True}
 
 
@@ -392,6 +430,8 @@ def _answer(rec: dict) -> str:
         if rec['meth'] in ('authenticate', 'authorize'):
             return f'(AnsIdent {ib(rec["name"])} {T.lst(ib(r) for r in rec["roles"])})'
         return f'(AnsOk {T.boolean(rec.get("ro", False))} {T.boolean(rec.get("gone", False))})'
+    if o == 'no:MailboxNotFound':
+        return 'AnsNotFound'
     if o.startswith('no:'):
         return 'AnsNo'
     if o == 'timeout':
@@ -420,7 +460,18 @@ def _obs_term(v: dict, greeting: bool = False) -> str:
                   f'{T.boolean(snap["starttls"])} {T.N(max(v["logincaps"], 0))})', 'obs')
 
 
-def _script_term(calls: list[dict]) -> str:
+def _script_term(calls: list[dict], idle: bool = False) -> str:
+    if idle:
+        # IDLE's update loop calls check_mailbox once per wake-up; how often it
+        # wakes is the backend's business (C16): the model asks once.
+        folded = []
+        for c in calls:
+            if folded and c['meth'] == 'check_mailbox' and folded[-1]['meth'] == 'check_mailbox' \
+                    and folded[-1].get('out') == 'ok':
+                folded[-1] = c
+            else:
+                folded.append(c)
+        calls = folded
     if not calls:
         return 'no_calls'
     return INTERN('s_', T.lst(f'("{c["meth"]}", {_answer(c)})' for c in calls), 'script')
@@ -431,7 +482,10 @@ def case_term(variant: dict, keys: list[str], res: dict) -> str:
                  f'{T.N(variant["limit"] or 0)} true true None)', 'config')
     steps = []
     for key, v in zip(keys, res['steps']):
-        steps.append(INTERN('st_', f'(mk_step sym_{key} {_script_term(v["calls"])} {_obs_term(v)})',
+        if key in INTERFERE:
+            continue
+        steps.append(INTERN('st_', f'(mk_step sym_{key} '
+                            f'{_script_term(v["calls"], BYKEY[key].name == "IDLE")} {_obs_term(v)})',
                             '(cmd * script * obs)%type'))
     g = res['greeting']
     return (f'(mk_case {cfg} {_script_term(g["calls"])} {_obs_term(g, True)} '
@@ -483,7 +537,12 @@ def monitor_sequence(ctx, variant_name: str, keys: list[str], res: dict) -> None
     if res['greeting']['closed']:
         return
     consecutive_bad = 0
+    prev_snap = res['greeting']['snap']
     for i, (key, v) in enumerate(zip(keys, res['steps'])):
+        if key in INTERFERE:
+            # another session changed the data; nothing to judge on this connection
+            sh.dirty = True
+            continue
         sym = BYKEY[key]
         cond, out = v['cond'], v['out']
         rp = dict(replay, step=i, command=sym.line.decode('latin-1'),
@@ -504,6 +563,16 @@ def monitor_sequence(ctx, variant_name: str, keys: list[str], res: dict) -> None
                 ctx.failure('gate', f'{sym.name} is not allowed in state {before} but was executed '
                             f'(it died with {v["exc"]})', rp,
                             {'kind': 'accepted_out_of_state', 'command': sym.name, 'state': before})
+            elif sym.valid and sym.name == 'CLOSE':
+                ctx.failure('close_deselects', f'CLOSE died with {v["exc"]}: {out[-80:]!r} '
+                            f'(mailbox {sh.mailbox}, read-only {sh.readonly})', rp,
+                            {'kind': 'close_not_ok', 'readonly': bool(sh.readonly)})
+            elif sym.valid and sym.name == 'LOGOUT':
+                ctx.failure('logout_bye_ok', f'LOGOUT died with {v["exc"]}: {out[-80:]!r}', rp,
+                            {'kind': 'logout_shape'})
+            elif sym.valid and sym.name in ('SELECT', 'EXAMINE'):
+                ctx.failure('select_ok', f'{sym.name} died with {v["exc"]}: {out[-80:]!r}', rp,
+                            {'kind': 'select_died'})
             sh.state = 'logout'
             continue
         # ---- gate: acceptance depends only on the state reached so far
@@ -621,6 +690,19 @@ def gen_sequences(ctx) -> list[tuple[str, list[str]]]:
                 for b in CORE3:
                     for c in CORE3:
                         seqs.append(('plain', pre + [a, b, c] + TAIL[:1]))
+    # 2b. a second session interferes between two commands of a selected connection
+    xs = sorted(INTERFERE)
+    before = [[], ['store'], ['fetch'], ['store', 'noop']]
+    after = ['close', 'expunge', 'uid_expunge', 'select_inbox', 'select_sent', 'examine_inbox',
+             'check', 'noop', 'fetch', 'logout', 'idle_done', 'store', 'copy']
+    for pre in (['login_ok', 'select_inbox'], ['login_ok', 'select_sent'],
+                ['login_ok', 'examine_inbox']):
+        for b4 in before:
+            for x in xs:
+                for a in after:
+                    if ctx.quick and rng.random() < 0.6 and a not in ('close', 'expunge', 'logout'):
+                        continue
+                    seqs.append(('plain', pre + b4 + [x, a, 'close', 'logout']))
     # 3. random sequences up to length 30, every configuration
     valid_by_state = {
         NONAUTH: [s.key for s in ALPHABET if s.valid and s.name and NONAUTH in RFC_TABLE[s.name]],
@@ -639,6 +721,8 @@ def gen_sequences(ctx) -> list[tuple[str, list[str]]]:
                 k = rng.choice(valid_by_state[st])
                 if k == 'logout' and rng.random() < 0.8:
                     k = 'noop'
+            elif r < 0.67 and st != NONAUTH:
+                k = rng.choice(xs)
             else:
                 k = rng.choice(full)
             keys.append(k)
